@@ -308,6 +308,11 @@ func (t *Table) LeftOptionalJoin(t2 *Table) error {
 	if disjointBindings(t.mbs, t2.mbs) {
 		// The tables has nothing in commnon. Hence, we are going to treat it
 		// as a regular cross product.
+		if len(t2.Data) == 0 {
+			// Nothing matched the optional side: keep every left row and leave
+			// the optional bindings unset instead of multiplying by zero rows.
+			t2 = &Table{AvailableBindings: t2.AvailableBindings, mbs: t2.mbs, Data: []Row{extendRow(Row{}, t2.mbs)}}
+		}
 		return t.DotProduct(t2)
 	}
 	// There are some overlapping bindings. That requires to sort both tables
